@@ -1251,7 +1251,23 @@ fn run_fwd_case(h: &H, out: &mut Out, idx: &str, mode: &str) {
     };
     match mode {
         "ids" => {
-            for (k, id) in [0u64, 1, 7, 1 << 32, u64::MAX - 1, u64::MAX].into_iter().enumerate() {
+            // ids of the ordinary calls made before, between and after the forwards
+            let mut issued: Vec<u64> = Vec::new();
+            let fwd_ids = [0u64, 7, 1 << 32, u64::MAX - 2, u64::MAX - 1, u64::MAX, 1];
+            for pre in 0..3usize {
+                let c = 200 + pre;
+                s.call(h, c, req_body(c), None);
+                let deadline = Instant::now() + call_watchdog();
+                let mut got = None;
+                while Instant::now() < deadline && got.is_none() {
+                    match s.ev.recv_timeout(Duration::from_millis(50)) {
+                        Ok(Event::Req(f)) if caller_of(&f) == Some(c) => { issued.push(f.h.id); s.send(Cmd::Send(vec![response(f.h.id, false, c as i64, 0)])) }
+                        Ok(Event::Res(x, r)) if x == c => got = Some(r),
+                        _ => {}
+                    }
+                }
+            }
+            for (k, id) in fwd_ids.into_iter().enumerate() {
                 s.fwd(h, k, id, None);
                 match s.req_or_res(k, id) {
                     Ok(()) => {
@@ -1274,7 +1290,7 @@ fn run_fwd_case(h: &H, out: &mut Out, idx: &str, mode: &str) {
                 let deadline = Instant::now() + call_watchdog();
                 while Instant::now() < deadline && got.is_none() {
                     match s.ev.recv_timeout(Duration::from_millis(50)) {
-                        Ok(Event::Req(f)) if caller_of(&f) == Some(100 + k) => s.send(Cmd::Send(vec![response(f.h.id, false, (100 + k) as i64, 0)])),
+                        Ok(Event::Req(f)) if caller_of(&f) == Some(100 + k) => { issued.push(f.h.id); s.send(Cmd::Send(vec![response(f.h.id, false, (100 + k) as i64, 0)])) }
                         Ok(Event::Res(x, r)) if x == 100 + k => got = Some(r),
                         _ => {}
                     }
@@ -1283,6 +1299,13 @@ fn run_fwd_case(h: &H, out: &mut Out, idx: &str, mode: &str) {
                     fail(out, "call_after_forward", format!("call after forwarding id {} returned {}", id, own(&got, (100 + k) as i64)));
                     verdict = "bad".into();
                 }
+            }
+            // the ids the client issued itself are pairwise distinct, whatever ids were forwarded meanwhile
+            let mut sorted = issued.clone();
+            sorted.sort();
+            if let Some(w) = sorted.windows(2).find(|w| w[0] == w[1]) {
+                fail(out, "ids_not_distinct", format!("the client issued request id {} twice on one connection (ids of its own calls, in order: {:?}; forwarded meanwhile: {:?})", w[0], issued, fwd_ids));
+                verdict = "bad".into();
             }
         }
         "dup" => {
@@ -2512,9 +2535,17 @@ fn run_wtmo_case(h: &H, out: &mut Out, idx: &str, n: usize, mib: usize) {
 /// `k` frames nobody waits for arrive back to back — late responses of timed-out calls, unknown ids, or
 /// duplicates of an answered call — while one call is still pending; then that call's reply, then a
 /// later call. Nothing but the pending call's own reply may affect it.
+/// Consume the reply of the last `Send`/`SendRaw` if one is outstanding.
+fn strays_sent_guard(s: &mut Session) -> bool {
+    s.srv_done().is_ok()
+}
 fn run_lates_case(h: &H, out: &mut Out, idx: &str, kind: usize, k: usize, shape: &str) {
-    let kname = KINDS[kind];
-    let op = format!("lates {} {} {} {}", idx, kind, k, shape);
+    run_lates_case_in(h, out, "deadconn", idx, kind, k, shape)
+}
+fn run_lates_case_in(h: &H, out: &mut Out, fam: &str, idx: &str, kind: usize, k: usize, shape: &str) {
+    let kname_s = format!("{}", KINDS[kind]);
+    let kname = kname_s.as_str();
+    let op = format!("{} {} {} {} {}", if fam == "mux" { "mlates" } else { "lates" }, idx, kind, k, shape);
     out.begin(&op);
     let ops = [op.clone()];
     let Ok(mut s) = h.open(kind) else { return };
@@ -2538,7 +2569,7 @@ fn run_lates_case(h: &H, out: &mut Out, idx: &str, kind: usize, k: usize, shape:
     let v0 = (k * 3 + kind) % NVARIANTS;
     s.call_v(h, 0, v0, None);
     let Some(p) = req_of(&mut s, 0) else {
-        out.oracle_fail(&format!("deadconn.{}.setup", kname), "pending call's request not seen", &ops);
+        out.oracle_fail(&format!("{}.{}.setup", fam, kname), "pending call's request not seen", &ops);
         return;
     };
     let mut strays: Vec<Vec<u8>> = Vec::new();
@@ -2549,7 +2580,7 @@ fn run_lates_case(h: &H, out: &mut Out, idx: &str, kind: usize, k: usize, shape:
             }
             for c in 1..=k {
                 let Some(f) = req_of(&mut s, c) else {
-                    out.oracle_fail(&format!("deadconn.{}.setup", kname), &format!("request of call {} not seen", c), &ops);
+                    out.oracle_fail(&format!("{}.{}.setup", fam, kname), &format!("request of call {} not seen", c), &ops);
                     return;
                 };
                 // every fourth late answer is a large one
@@ -2558,8 +2589,46 @@ fn run_lates_case(h: &H, out: &mut Out, idx: &str, kind: usize, k: usize, shape:
             for c in 1..=k {
                 let r = s.res_of(c, call_watchdog());
                 if !matches!(&r, Some(Err(e)) if cls(e) == "Timeout") {
-                    out.oracle_fail(&format!("deadconn.{}.timeout_outcome", kname), &format!("unanswered call {} with a 30 ms timeout returned {}", c, own(&r, c as i64)), &ops);
+                    out.oracle_fail(&format!("{}.{}.timeout_outcome", fam, kname), &format!("unanswered call {} with a 30 ms timeout returned {}", c, own(&r, c as i64)), &ops);
                 }
+            }
+        }
+        "cancel" if kind != 0 => {
+            // k calls aborted while waiting; their answers arrive afterwards, in a row
+            for c in 1..=k {
+                s.call_v(h, c, (c * 5) % NVARIANTS, None);
+            }
+            for c in 1..=k {
+                let Some(f) = req_of(&mut s, c) else { return };
+                strays.push(response_v(f.h.id, false, c as i64, c as i64, variant_of(&f)));
+            }
+            for c in 1..=k {
+                let _ = s.abort(h, c);
+            }
+        }
+        "errs" => {
+            // k calls each answered with an error frame (their own id, ec 7), in a row: each fails alone
+            for c in 1..=k {
+                s.call_v(h, c, (c * 3) % NVARIANTS, None);
+            }
+            let mut errs = Vec::new();
+            for c in 1..=k {
+                let Some(f) = req_of(&mut s, c) else { return };
+                errs.push(error_response(f.h.id, 7));
+            }
+            if kind == 2 { s.send(Cmd::Send(errs)); } else { s.send(Cmd::SendRaw(errs.concat())); }
+            let _ = s.srv_done();
+            for c in 1..=k {
+                let r = s.res_of(c, call_watchdog());
+                if !matches!(&r, Some(Err(RepeError::ServerError { .. }))) {
+                    out.oracle_fail(&format!("{}.{}.error_response_outcome", fam, kname), &format!("call {} answered with an error frame returned {}", c, own(&r, c as i64)), &ops);
+                }
+            }
+        }
+        "push" if kind == 2 => {
+            // k server pushes in a row (a subscriber is listening): all delivered, in order
+            for j in 0..k {
+                strays.push(response(3_000_000_000 + j as u64, true, j as i64, -1));
             }
         }
         "dup" => {
@@ -2568,7 +2637,7 @@ fn run_lates_case(h: &H, out: &mut Out, idx: &str, kind: usize, k: usize, shape:
             s.send(Cmd::Send(vec![response_v(f.h.id, false, 1, 1, 0)]));
             let r = s.res_of(1, call_watchdog());
             if own(&r, 1) != "own" {
-                out.oracle_fail(&format!("deadconn.{}.setup", kname), &format!("answered call returned {}", own(&r, 1)), &ops);
+                out.oracle_fail(&format!("{}.{}.setup", fam, kname), &format!("answered call returned {}", own(&r, 1)), &ops);
             }
             for j in 0..k {
                 strays.push(if j % 4 == 3 { stray_response(f.h.id, 8) } else { response_v(f.h.id, false, 1, 1, 0) });
@@ -2580,18 +2649,40 @@ fn run_lates_case(h: &H, out: &mut Out, idx: &str, kind: usize, k: usize, shape:
             }
         }
     }
+    let mut sub = match (&s.cl, shape) {
+        (Cl::W(w), "push") => w.subscribe_notifies().ok(),
+        _ => None,
+    };
     // back to back, nothing matched in between
-    if kind == 2 {
-        s.send(Cmd::Send(strays));
-    } else {
-        s.send(Cmd::SendRaw(strays.concat()));
+    if !strays.is_empty() {
+        if kind == 2 {
+            s.send(Cmd::Send(strays));
+        } else {
+            s.send(Cmd::SendRaw(strays.concat()));
+        }
+        let _ = strays_sent_guard(&mut s);
     }
-    let _ = s.srv_done();
+    if let Some(rx) = sub.as_mut() {
+        let want: Vec<i64> = (0..k as i64).collect();
+        let got = h.rt.block_on(async {
+            let mut v = Vec::new();
+            while v.len() < k {
+                match tokio::time::timeout(call_watchdog(), rx.recv()).await {
+                    Ok(Some(m)) => v.push(serde_json::from_slice::<Value>(&m.body).ok().and_then(|x| tag_of(&x)).unwrap_or(-2)),
+                    _ => break,
+                }
+            }
+            v
+        });
+        if got != want {
+            out.oracle_fail(&format!("{}.{}.pushes_lost", fam, kname), &format!("{} pushes in a row: the subscriber saw {} of them ({:?}…)", k, got.len(), &got[..got.len().min(5)]), &ops);
+        }
+    }
     s.send(Cmd::Send(vec![response_v(p.h.id, false, 0, 0, variant_of(&p))]));
     let r = s.res_of(0, call_watchdog());
     let pending = own(&r, 0);
     if pending != "own" {
-        out.oracle_fail(&format!("deadconn.{}.pending_call_hit_by_unawaited_frames", kname), &format!("{} {} frames in a row that nobody waited for, then the pending call's reply: it returned {}", k, shape, pending), &ops);
+        out.oracle_fail(&format!("{}.{}.pending_call_hit_by_unawaited_frames", fam, kname), &format!("{} {} frames in a row that nobody waited for, then the pending call's reply: it returned {}", k, shape, pending), &ops);
         if pending == "HANG" { saw_hang(); }
     }
     let late = k + 2;
@@ -2604,12 +2695,140 @@ fn run_lates_case(h: &H, out: &mut Out, idx: &str, kind: usize, k: usize, shape:
         None => own(&s.res_of(late, Duration::from_millis(200)), late as i64),
     };
     if later != "own" {
-        out.oracle_fail(&format!("deadconn.{}.later_call_after_unawaited_frames", kname), &format!("after {} {} frames in a row a later call returned {}", k, shape, later), &ops);
+        out.oracle_fail(&format!("{}.{}.later_call_after_unawaited_frames", fam, kname), &format!("after {} {} frames in a row a later call returned {}", k, shape, later), &ops);
         if later == "HANG" { saw_hang(); }
     }
-    out.count(&format!("deadconn.{}.lates.{}", kname, shape));
+    out.count(&format!("{}.{}.lates.{}", fam, kname, shape));
     let canon = |x: &str| if x == "own" { "own".to_string() } else if x == "HANG" { "HANG".to_string() } else { "Err".to_string() };
     out.case(&op, &format!("{} pending {} later {}", idx, canon(&pending), canon(&later)), true);
+    s.send(Cmd::Close);
+}
+
+/// Seed C06-S's window: a batch with a per-entry timeout and more entries than batch workers; the peer is
+/// silent for longer than the timeout, then answers whatever arrives. On a healthy connection every entry
+/// ends as its own answer or as a timeout of its own — never as a connection error because ANOTHER entry
+/// timed out.
+fn run_batchtmo_case(h: &H, out: &mut Out, idx: &str, kind: usize, n: usize) {
+    let kname = KINDS[kind];
+    let op = format!("batchtmo {} {} {}", idx, kind, n);
+    out.begin(&op);
+    let ops = [op.clone()];
+    let Ok(mut s) = h.open(kind) else { return };
+    s.send(Cmd::AutoRead);
+    let _ = s.srv_done();
+    let reqs: Vec<(String, Value)> = (0..n).map(|j| (vpath(j, 0), req_body(j))).collect();
+    let (btx, brx) = smpsc::channel::<Vec<Result<Value, RepeError>>>();
+    let t = Duration::from_millis(150);
+    match s.cl.clone() {
+        Cl::B(cl) => { std::thread::spawn(move || { let _ = btx.send(cl.batch_json_with_timeout(reqs, t)); }); }
+        Cl::A(cl) => { h.rt.spawn(async move { let _ = btx.send(cl.batch_json_with_timeout(reqs, t).await); }); }
+        Cl::W(cl) => { h.rt.spawn(async move { let _ = btx.send(cl.batch_json_with_timeout(reqs, t).await); }); }
+    }
+    // silent for 400 ms after the first request, then every request that arrives is answered at once
+    let mut first: Option<Instant> = None;
+    let mut held: Vec<RawFrame> = Vec::new();
+    let deadline = Instant::now() + call_watchdog() + Duration::from_secs(5);
+    let mut res = None;
+    while Instant::now() < deadline && res.is_none() {
+        if let Ok(x) = brx.try_recv() {
+            res = Some(x);
+            break;
+        }
+        let silent = first.map(|f| f.elapsed() < Duration::from_millis(400)).unwrap_or(true);
+        if !silent && !held.is_empty() {
+            // late answers to the entries that have timed out meanwhile: inert
+            let late: Vec<Vec<u8>> = held.drain(..).map(|f| { let c = caller_of(&f).unwrap_or(0); response_v(f.h.id, false, c as i64, c as i64, 0) }).collect();
+            s.send(Cmd::Send(late));
+        }
+        match s.ev.recv_timeout(Duration::from_millis(10)) {
+            Ok(Event::Req(f)) if f.h.notify == 0 => {
+                if first.is_none() { first = Some(Instant::now()); }
+                if first.unwrap().elapsed() < Duration::from_millis(400) {
+                    held.push(f);
+                } else {
+                    let c = caller_of(&f).unwrap_or(0);
+                    s.send(Cmd::Send(vec![response_v(f.h.id, false, c as i64, c as i64, 0)]));
+                }
+            }
+            _ => {}
+        }
+    }
+    let (mut owns, mut tmos, mut bad) = (0usize, 0usize, Vec::new());
+    match &res {
+        None => {
+            out.oracle_fail(&format!("deadconn.{}.batch_hang", kname), "batch_json_with_timeout did not return", &ops);
+            saw_hang();
+        }
+        Some(v) => {
+            for (j, r) in v.iter().enumerate() {
+                match r {
+                    Ok(val) if tag_of(val) == Some(j as i64) => owns += 1,
+                    Err(e) if cls(e) == "Timeout" => tmos += 1,
+                    Ok(val) => bad.push(format!("slot {} holds tag {:?}", j, tag_of(val))),
+                    Err(e) => bad.push(format!("slot {}: {}", j, io_kind(e))),
+                }
+            }
+            if v.len() != n || !bad.is_empty() {
+                out.oracle_fail(&format!("deadconn.{}.batch_entry_failed_on_healthy_connection", kname), &format!("batch of {} with a 150 ms per-entry timeout against a peer that was silent for 400 ms and then answered: {} own, {} timed out, and {} entries ended otherwise: {:?}", n, owns, tmos, bad.len(), &bad[..bad.len().min(4)]), &ops);
+            }
+        }
+    }
+    out.count(&format!("deadconn.{}.batchtmo.{}", kname, if owns > 0 && tmos > 0 { "mixed" } else if tmos > 0 { "all_timed_out" } else { "all_own" }));
+    out.case(&op, &format!("{} {}", idx, if res.is_some() && bad.is_empty() { "ok" } else { "bad" }), true);
+    s.send(Cmd::Close);
+}
+
+/// Seed C06-T's window: a call with a per-call timeout whose request is larger than the socket buffers,
+/// while the peer does not read for longer than that timeout; the peer then reads and answers. The call
+/// itself may return its answer or a timeout; the small call in flight before it and a later call must get
+/// their own answers (one slow write is not a connection failure).
+fn run_slowpeer_case(h: &H, out: &mut Out, idx: &str, kind: usize, mib: usize) {
+    let kname = KINDS[kind];
+    let op = format!("slowpeer {} {} {}", idx, kind, mib);
+    out.begin(&op);
+    let ops = [op.clone()];
+    let Ok(mut s) = h.open(kind) else { return };
+    s.call_v(h, 0, 0, None);
+    s.send(Cmd::WaitUnread(48));
+    let _ = s.srv_done();
+    // the big call, through the `_with_timeout` twin (150 ms)
+    let pad = "x".repeat(mib << 20);
+    s.call(h, 7, json!({"c": 107, "pad": pad}), Some(Duration::from_millis(150)));
+    s.send(Cmd::WaitUnread(1 << 16));
+    let _ = s.srv_done();
+    std::thread::sleep(Duration::from_millis(400));
+    s.send(Cmd::AutoRead);
+    let _ = s.srv_done();
+    let (mut small, mut big) = (None, None);
+    let deadline = Instant::now() + call_watchdog() + Duration::from_secs(5);
+    while Instant::now() < deadline && (small.is_none() || big.is_none()) {
+        match s.ev.recv_timeout(Duration::from_millis(50)) {
+            Ok(Event::Req(f)) => { let c = caller_of(&f).unwrap_or(99); s.send(Cmd::Send(vec![response_v(f.h.id, false, c as i64, c as i64, variant_of(&f))])); }
+            Ok(Event::Res(0, r)) => small = Some(r),
+            Ok(Event::Res(7, r)) => big = Some(r),
+            Ok(Event::Res(x, r)) => s.stash.push((x, r)),
+            _ => {}
+        }
+    }
+    let b = match &big { None => "HANG".to_string(), Some(Ok(v)) if tag_of(v) == Some(7) => "own".into(), Some(Err(e)) if cls(e) == "Timeout" => "Timeout".into(), Some(Ok(_)) => "other".into(), Some(Err(e)) => format!("Err({})", io_kind(e)) };
+    let a = own(&small, 0);
+    out.count(&format!("deadconn.{}.slowpeer.big.{}", kname, b.split('(').next().unwrap()));
+    if b != "own" && b != "Timeout" {
+        out.oracle_fail(&format!("deadconn.{}.slow_write_call", kname), &format!("a {} MiB call with a 150 ms timeout against a peer that read late returned {}", mib, b), &ops);
+        if b == "HANG" { saw_hang(); }
+    }
+    if a != "own" {
+        out.oracle_fail(&format!("deadconn.{}.inflight_call_lost_to_slow_write", kname), &format!("the call in flight while another call's large write was slow returned {} although the peer answered it", a), &ops);
+        if a == "HANG" { saw_hang(); }
+    }
+    s.call_v(h, 1, 1, None);
+    let later = own(&serve_until(&mut s, 1, 0, call_watchdog()), 1);
+    if later != "own" {
+        out.oracle_fail(&format!("deadconn.{}.later_call_lost_to_slow_write", kname), &format!("a call made after a slow large write (big call ended {}) returned {}", b, later), &ops);
+        if later == "HANG" { saw_hang(); }
+    }
+    let canon = |x: &str| if x == "own" { "own" } else if x == "HANG" { "HANG" } else { "Err" };
+    out.case(&op, &format!("{} small {} big {} later {}", idx, canon(&a), if b == "own" || b == "Timeout" { "ok" } else { "bad" }, canon(&later)), true);
     s.send(Cmd::Close);
 }
 
@@ -3346,6 +3565,9 @@ fn main() {
                     }
                 }
                 Some("fwdres") => run_fwd_residue_case(&h, &mut out, &idx),
+                Some("batchtmo") if w.len() >= 4 => run_batchtmo_case(&h, &mut out, &idx, w[2].parse().unwrap(), w[3].parse().unwrap()),
+                Some("slowpeer") if w.len() >= 4 => run_slowpeer_case(&h, &mut out, &idx, w[2].parse().unwrap(), w[3].parse().unwrap()),
+                Some("mlates") if w.len() >= 5 => run_lates_case_in(&h, &mut out, "mux", &idx, w[2].parse().unwrap(), w[3].parse().unwrap(), w[4]),
                 Some("lates") if w.len() >= 5 => run_lates_case(&h, &mut out, &idx, w[2].parse().unwrap(), w[3].parse().unwrap(), w[4]),
                 Some("abandon") if w.len() >= 4 => run_abandon_case(&h, &mut out, &idx, w[2].parse().unwrap(), w[3].parse().unwrap()),
                 Some("wtmo") if w.len() >= 5 => run_wtmo_case(&h, &mut out, &idx, w[3].parse().unwrap(), w[4].parse().unwrap()),
@@ -3411,6 +3633,17 @@ fn main() {
                 q += 1;
             }
         }
+        for kind in 0..3 {
+            let mut shapes = vec![(31usize, "unknown"), (32, "unknown"), (33, "unknown"), (64, "dup"), (65, "unknown"), (32, "dup"), (33, "late")];
+            if args.thorough() {
+                shapes.extend([(256, "unknown"), (1000, "dup"), (257, "late")]);
+            }
+            for (k, shape) in shapes {
+                if out.oracle_failures >= 12 { break; }
+                run_lates_case_in(&h, &mut out, "mux", &format!("k{q}"), kind, k, shape);
+                q += 1;
+            }
+        }
         for mode in ["ids", "dup", "reuse"] {
             run_fwd_case(&h, &mut out, &format!("f{q}"), mode);
             q += 1;
@@ -3458,10 +3691,24 @@ fn main() {
             c += 1;
         }
         run_fwd_residue_case(&h, &mut out, "fr0");
+        // a batch with a timeout and more entries than workers; a slow large write under a per-call timeout
+        for kind in 0..3 {
+            if out.oracle_failures >= 12 { break; }
+            run_batchtmo_case(&h, &mut out, &format!("bt{kind}"), kind, 100);
+            run_slowpeer_case(&h, &mut out, &format!("sp{kind}"), kind, 12);
+        }
         // many frames in a row that nobody waits for, with a call still pending
         let mut lq = 0;
         for kind in 0..3 {
-            for (k, shape) in [(1usize, "late"), (7, "late"), (8, "late"), (9, "late"), (16, "late"), (64, "late"), (8, "unknown"), (9, "unknown"), (64, "unknown"), (9, "dup"), (16, "dup")] {
+            let mut shapes = vec![(1usize, "late"), (2, "late"), (7, "late"), (8, "late"), (9, "late"), (16, "late"), (17, "late"), (64, "late"), (65, "late"), (8, "unknown"), (9, "unknown"), (64, "unknown"), (9, "dup"), (16, "dup"), (65, "dup"),
+                (8, "errs"), (33, "errs"), (9, "cancel"), (33, "cancel"), (9, "push"), (65, "push")];
+            if args.thorough() {
+                shapes.extend([(256, "late"), (256, "unknown"), (1000, "unknown"), (1000, "dup"), (256, "errs"), (256, "cancel"), (1000, "push")]);
+            }
+            for (k, shape) in shapes {
+                if (shape == "cancel" && kind == 0) || (shape == "push" && kind != 2) {
+                    continue;
+                }
                 if out.oracle_failures >= 12 {
                     break;
                 }
